@@ -440,7 +440,7 @@ func (interp *Interpreter) cfg(root *node, sc *scope, importPath, pkgName string
 		case commClause:
 			sc = sc.pushBloc()
 			defineLabels(sc, n)
-			if len(n.child) > 0 && n.child[0].action == aAssign {
+			if len(n.child) > 0 && n.child[0].kind == defineStmt {
 				ch := n.child[0].child[1].child[0]
 				var typ *itype
 				if typ, err = nodeType(interp, sc, ch); err != nil {
@@ -906,11 +906,6 @@ func (interp *Interpreter) cfg(root *node, sc *scope, importPath, pkgName string
 					if src.typ.untyped && !dest.typ.untyped {
 						src.typ = dest.typ
 					}
-				case src.action == aRecv:
-					// Assign by reading from a receiving channel.
-					n.gen = nop
-					src.findex = dest.findex // Set recv address to LHS.
-					dest.typ = src.typ
 				case src.action == aCompositeLit:
 					if dest.typ.cat == valueT && dest.typ.rtype.Kind() == reflect.Interface {
 						// Skip optimisation for assigned interface.
@@ -2499,6 +2494,10 @@ func (interp *Interpreter) cfg(root *node, sc *scope, importPath, pkgName string
 			case n.rval.IsValid():
 				n.gen = nop
 				n.findex = notInFrame
+			case n.action == aRecv:
+				// A receive operation replaces its location instead of storing into it: it cannot
+				// share the location of a variable, which pointers and closures may refer to.
+				n.findex = sc.add(n.typ)
 			case n.anc.kind == assignStmt && n.anc.action == aAssign && n.anc.nright == 1 && !isBlank(n.anc.child[childPos(n)-n.anc.nright]) && !isInterface(n.anc.child[childPos(n)-n.anc.nright].typ) && !isBinVar(n.anc.child[childPos(n)-n.anc.nright]):
 				// Not for a blank destination, which has no type nor frame location yet, nor
 				// for an interface destination: the assign operation converts the result, nor
